@@ -305,7 +305,7 @@ def main(tier, seed):
     for base in ([] if os.environ.get("VERIF_REPLAY") else list(insts[-max(1, n // 5):])):
         insts += ref_variants(rrng, base)
     if not os.environ.get("VERIF_REPLAY"):
-        insts += instgen.boundary_instances(random.Random(seed * 131 + 17), 10 if tier == "quick" else 300)
+        insts += instgen.boundary_instances(random.Random(seed * 131 + 17), 12 if tier == "quick" else 300)
     results = lib.pmap(run_case, [(d, k, inst) for k, inst in enumerate(insts)])
     # correspondence differs somewhere but no observation of the property differs: search for a failing input
     extra = []
